@@ -247,6 +247,7 @@ fn case_of(b: &Built, origin: &str, exact: bool, every: usize, stats: &mut std::
     *stats.entry("windows".into()).or_default() += wterms.len();
     *stats.entry("windows_partially_shaded_some_hour".into()).or_default() += partial;
     Some(Case {
+        post: String::new(),
         term: format!("(mkC12 {}\n {}\n {}\n [{}])", walls, shades, wins, wterms.join(";\n ")),
         json: json!({"origin": origin, "exact_geometry": exact, "model": serde_json::to_value(m).unwrap(), "f_shobst": fmap.iter().map(|(k, v)| (k.to_string(), *v)).collect::<HashMap<_, _>>()}),
         nontrivial: partial > 0,
